@@ -1,114 +1,92 @@
 (* C13 - output is a deterministic function of sources and configuration.
-   Statements about the order skeleton Model/C13Order.v: gen zod w p is the list of declarations of
-   every generated file, w the iteration orders of all hash-based collections.
+   Statements about the order skeleton Model/C13Order.v, which follows the code with the repairs
+   C13-sort-before-use, C12-fix-dedup, C07-4, C10-5: gen zod w p is the list of declarations of every
+   generated file, w the iteration orders of all hash-based collections (sorted before use).
    Only statements, [exact], Examples and [Print Assumptions] live here. *)
 From Coq Require Import List Arith Bool Permutation.
 Require Import TT.Model.Base TT.Model.Topo TT.Model.C13Order TT.Spec.C13Rel.
 Require Import TT.Proofs.C13SortInv TT.Proofs.C13Proofs TT.Proofs.C13Extra.
 Import ListNotations.
 
-(* The part of the property that holds: whatever the hash orders, the same files are written and
-   every file holds the same multiset of declarations - unless one type name is defined twice. *)
-Theorem C13_set_independent : forall p, kf_dupdef p = false ->
-  forall zod w w', out_perm (gen zod w p) (gen zod w' p).
-Proof. exact set_independent. Qed.
+(* Whatever the hash orders, the generated declarations are the same lists (was refuted before the
+   repair; uses isort_perm_invariant). Also the two visualisation files. *)
+Theorem C13_order_independent : forall p zod w w', gen zod w p = gen zod w' p.
+Proof. exact order_independent. Qed.
+Theorem C13_viz_independent : forall p w w', viz w p = viz w' p.
+Proof. exact viz_independent. Qed.
 
 (* Moving items between files, reordering them, splitting and merging files (any project with the
-   same items) changes at most the order of declarations - also across different hash orders. *)
-Theorem C13_move : forall p p', Permutation (all_items p) (all_items p') -> kf_dupdef p = false ->
+   same items) changes at most the order of declarations - unless a type name is defined twice or an
+   event name is emitted with two different payload types. *)
+Theorem C13_move : forall p p', Permutation (all_items p) (all_items p') ->
+  kf_dupdef p = false -> kf_dupevent p = false ->
   forall zod w w', out_perm (gen zod w p) (gen zod w' p').
 Proof. exact move_perm. Qed.
 
-(* Added non-command functions without emit calls and non-serde items change nothing. *)
+(* Added non-command functions without emit calls and non-serde items change nothing; an added
+   file holding only such items changes at most the order. *)
 Theorem C13_noise : forall p p' zod w, denoise p = denoise p' -> gen zod w p = gen zod w p'.
 Proof. exact noise_equiv. Qed.
-Theorem C13_noise_file : forall f p zod w, noise_file f = true -> gen zod w (f :: p) = gen zod w p.
+Theorem C13_noise_file : forall f p zod w w', noise_file f = true -> kf_dupdef p = false -> kf_dupevent p = false ->
+  out_perm (gen zod w p) (gen zod w' (f :: p)).
 Proof. exact noise_file_thm. Qed.
 
-(* Full order independence is false of the code today: two files with one command each. *)
-Theorem C13_order_independent_refuted :
-  exists p w w', kf_dupdef p = false /\ kf_order false p = true /\ gen false w p <> gen false w' p.
-Proof. exact order_independent_refuted. Qed.
-(* With one type name defined in two files even the content depends on the order. *)
-Theorem C13_content_refuted :
-  exists p w w' o o', kf_dupdef p = true /\ gen false w p = Some o /\ gen false w' p = Some o' /\
+(* The two classes are not vacuous: exchanging two same-named definitions between two files changes
+   the emitted body (the last path in sorted order wins) ... *)
+Theorem C13_move_dupdef_refuted :
+  exists p p' w o o', Permutation (all_items p) (all_items p') /\ kf_dupdef p = true /\ kf_dupevent p = false /\
+    gen false w p = Some o /\ gen false w p' = Some o' /\
     In (DType 1 0) (o_types o') /\ ~ In (DType 1 0) (o_types o).
-Proof. exact content_refuted. Qed.
+Proof. exact move_dupdef_refuted. Qed.
+(* ... and exchanging two functions that emit one event name with different payload types changes the
+   listener (the first emit site wins). *)
+Theorem C13_move_dupevent_refuted :
+  exists p p' w o o', Permutation (all_items p) (all_items p') /\ kf_dupdef p = false /\ kf_dupevent p = true /\
+    gen false w p = Some o /\ gen false w p' = Some o' /\
+    o_events o = Some [DListener 1 0] /\ o_events o' = Some [DListener 1 1].
+Proof. exact move_dupevent_refuted. Qed.
 
-(* Outside the classes each file is the same list for every hash order. *)
-Theorem C13_deterministic_commands : forall p zod w w', kf_cmd_files p = false ->
-  commands_file zod w p = commands_file zod w' p.
-Proof. exact deterministic_commands. Qed.
-Theorem C13_deterministic_events : forall p w w', kf_ev_files p = false ->
-  events_file w p = events_file w' p /\ index_file w p = index_file w' p.
-Proof. exact deterministic_events. Qed.
-Theorem C13_deterministic_types_partial : forall p zod w w', kf_dupdef p = false -> kf_types_thm zod p = false ->
-  types_file zod w p = types_file zod w' p.
-Proof. exact deterministic_types. Qed.
-Theorem C13_deterministic_partial : forall p zod w w', kf_dupdef p = false ->
-  kf_cmd_files p = false -> kf_ev_files p = false -> kf_types_thm zod p = false ->
-  gen zod w p = gen zod w' p.
-Proof. exact deterministic. Qed.
-(* For plain mode kf_types_thm is the run-time class kf_types; for Zod mode the run-time class is
-   narrower (two used types not strictly ordered by reachability). The statement under that class is
-   not proved (it needs uniqueness of the DFS order on totally ordered acyclic graphs): *)
-Definition C13_zod_types_full_statement : Prop :=
-  forall p w w', kf_dupdef p = false -> kf_types true p = false -> types_file true w p = types_file true w' p.
-Example C13_ex_classes_agree_plain : forall p, kf_types false p = kf_types_thm false p.
-Proof. intros p. reflexivity. Qed.
+(* ---- the former refutation witness of order independence now satisfies it ---- *)
+Example C13_ex_two_cmds : gen false (w_of [2; 1]) p_two_cmds = gen false (w_of [1; 2]) p_two_cmds
+  /\ option_map o_commands (gen false (w_of [2; 1]) p_two_cmds) = Some [DWrapper 1; DWrapper 2].
+Proof. vm_compute. auto. Qed.
+(* the former content witness: identical sources now give one content for every order *)
+Example C13_ex_dupdef_deterministic : gen false (w_of [1; 2]) p_dupdef = gen false (w_of [2; 1]) p_dupdef
+  /\ option_map o_types (gen false (w_of [1; 2]) p_dupdef) = Some [DType 1 1; DParams 1].
+Proof. vm_compute. auto. Qed.
 
-(* The repair: sorting the discovered files / type names before use makes generation a function of
-   the project alone (uses isort_perm_invariant). *)
-Theorem C13_sorted_fix : forall p zod w w', gen_fixed zod w p = gen_fixed zod w' p.
-Proof. exact sorted_fix. Qed.
-
-(* ---- non-vacuity: a three-file project with commands, an event, types, noise ---- *)
+(* ---- non-vacuity: a three-file project with commands, events, types, noise ---- *)
 Definition ex_p : project :=
   [(1, [mk_cmd 1 [1]; INoise; mk_type 2 [3] 0]);
-   (2, [mk_type 1 [2; 3] 1; IFn [{| e_name := 1; e_roots := [3] |}]; mk_cmd 2 []]);
-   (3, [mk_type 3 [] 2; IFn []])].
+   (2, [mk_type 1 [2; 3] 1; IFn [mk_ev 1 [4] 7]; mk_cmd 2 []; IFn [mk_ev 1 [4] 7]]);
+   (3, [mk_type 3 [] 2; IFn []; mk_type 4 [5] 3; mk_type 5 [] 4])].
 Definition ex_w : omega := {| w_files := [3; 1; 2]; w_used := [2; 3; 1]; w_req := [3; 1; 2]; w_deps := [(1, [3; 2])];
                               w_res := []; w_dmap := [] |}.
-Example C13_ex_premises : kf_dupdef ex_p = false /\ kf_order false ex_p = true /\ kf_order true ex_p = true.
+Example C13_ex_premises : kf_dupdef ex_p = false /\ kf_dupevent ex_p = false.
 Proof. vm_compute. auto. Qed.
-Example C13_ex_gen_plain : option_map o_types (gen false ex_w ex_p) = Some [DType 2 0; DType 3 2; DType 1 1; DParams 1]
+Example C13_ex_gen_plain : option_map o_types (gen false ex_w ex_p) = Some [DType 1 1; DType 2 0; DType 3 2; DType 4 3; DType 5 4; DParams 1]
   /\ option_map o_commands (gen false ex_w ex_p) = Some [DWrapper 1; DWrapper 2]
-  /\ option_map o_commands (gen false (w_of [2; 1]) ex_p) = Some [DWrapper 2; DWrapper 1].
+  /\ option_map o_events (gen false ex_w ex_p) = Some (Some [DListener 1 7]).
 Proof. vm_compute. auto. Qed.
 Example C13_ex_gen_zod : option_map o_types (gen true ex_w ex_p)
-  = Some [DSchema 3 2; DInfer 3; DSchema 2 0; DInfer 2; DSchema 1 1; DInfer 1; DPSchema 1; DParams 1].
+  = Some [DSchema 3 2; DInfer 3; DSchema 2 0; DInfer 2; DSchema 1 1; DInfer 1; DSchema 5 4; DInfer 5; DSchema 4 3; DInfer 4;
+          DPSchema 1; DParams 1].
 Proof. vm_compute. reflexivity. Qed.
 Example C13_ex_noise : denoise ex_p <> ex_p /\ noise_file (4, [INoise; IFn []]) = true.
 Proof. split; [vm_compute; intros H; discriminate H|reflexivity]. Qed.
-Example C13_ex_move : Permutation (all_items ex_p)
-    (all_items [(1, [mk_type 3 [] 2; mk_cmd 2 []; mk_cmd 1 [1]; INoise; mk_type 2 [3] 0; mk_type 1 [2; 3] 1;
-                     IFn [{| e_name := 1; e_roots := [3] |}]; IFn []])]).
-Proof. vm_compute. apply Permutation_cons_app with (l1 := [mk_type 3 [] 2; mk_cmd 2 []]) (l2 := [INoise; mk_type 2 [3] 0; mk_type 1 [2; 3] 1;
-                     IFn [{| e_name := 1; e_roots := [3] |}]; IFn []]).
-  cbn [app]. apply Permutation_cons_app with (l1 := [mk_type 3 [] 2; mk_cmd 2 []]) (l2 := [mk_type 2 [3] 0; mk_type 1 [2; 3] 1;
-                     IFn [{| e_name := 1; e_roots := [3] |}]; IFn []]).
-  cbn [app]. apply Permutation_cons_app with (l1 := [mk_type 3 [] 2; mk_cmd 2 []]) (l2 := [mk_type 1 [2; 3] 1;
-                     IFn [{| e_name := 1; e_roots := [3] |}]; IFn []]).
-  cbn [app]. apply Permutation_cons_app with (l1 := [mk_type 3 [] 2; mk_cmd 2 []]) (l2 := [IFn [{| e_name := 1; e_roots := [3] |}]; IFn []]).
-  cbn [app]. apply Permutation_cons_app with (l1 := [mk_type 3 [] 2; mk_cmd 2 []]) (l2 := [IFn []]).
-  cbn [app]. apply Permutation_cons_app with (l1 := [mk_type 3 [] 2]) (l2 := [IFn []]).
-  cbn [app]. apply Permutation_refl. Qed.
-Example C13_ex_deterministic : kf_dupdef [(1, [mk_cmd 1 [1]; mk_cmd 2 []]); (2, [mk_type 1 [] 0])] = false
-  /\ kf_order false [(1, [mk_cmd 1 [1]; mk_cmd 2 []]); (2, [mk_type 1 [] 0])] = false
-  /\ kf_order true [(1, [mk_cmd 1 [1]; mk_cmd 2 []]); (2, [mk_type 1 [] 0])] = false.
-Proof. vm_compute. auto. Qed.
-Example C13_ex_fixed : gen_fixed false (w_of [2; 1]) p_two_cmds = gen_fixed false (w_of [1; 2]) p_two_cmds
-  /\ option_map o_commands (gen_fixed false (w_of [2; 1]) p_two_cmds) = Some [DWrapper 1; DWrapper 2].
-Proof. vm_compute. auto. Qed.
+Example C13_ex_move : Permutation (all_items p_dupevent) (all_items p_dupevent_swapped)
+  /\ Permutation (all_items [(1, [mk_cmd 1 [1]; mk_type 1 [] 0]); (2, [mk_cmd 2 []])])
+                 (all_items [(1, [mk_cmd 2 []]); (2, [mk_type 1 [] 0]); (3, [mk_cmd 1 [1]])]).
+Proof. split; cbn.
+  - apply perm_skip. apply perm_swap.
+  - apply perm_trans with (l' := [mk_cmd 1 [1]; mk_cmd 2 []; mk_type 1 [] 0]); [apply perm_skip, perm_swap|].
+    apply perm_trans with (l' := [mk_cmd 2 []; mk_cmd 1 [1]; mk_type 1 [] 0]); [apply perm_swap|].
+    apply perm_skip. apply perm_swap. Qed.
 
-Print Assumptions C13_set_independent.
+Print Assumptions C13_order_independent.
+Print Assumptions C13_viz_independent.
 Print Assumptions C13_move.
 Print Assumptions C13_noise.
 Print Assumptions C13_noise_file.
-Print Assumptions C13_order_independent_refuted.
-Print Assumptions C13_content_refuted.
-Print Assumptions C13_deterministic_commands.
-Print Assumptions C13_deterministic_events.
-Print Assumptions C13_deterministic_types_partial.
-Print Assumptions C13_deterministic_partial.
-Print Assumptions C13_sorted_fix.
+Print Assumptions C13_move_dupdef_refuted.
+Print Assumptions C13_move_dupevent_refuted.
